@@ -68,6 +68,9 @@ CONVENIENCE = {
 PROV_CLASS_TYPES = ["Person", "Organization", "SoftwareAgent", "Plan", "Collection", "EmptyCollection",
                     "Revision", "Quotation", "PrimarySource", "Bundle", "Entity"]
 
+SUBTYPES_OF = {"Agent": ["Person", "Organization", "SoftwareAgent"], "Entity": ["Plan", "Collection", "EmptyCollection", "Bundle"],
+               "Derivation": ["Revision", "Quotation", "PrimarySource"]}
+
 STR_COMMON = ["", "a", "hello world", 'q"uote', "back\\slash", "new\nline", "tab\there", "é中\U0001F600",
               "<b>&amp;</b>", "prov:foo", "ex:bar", "  lead", "trail  ", "'single'", 'a"""b', "1", "true", "]]>",
               "{x}", "%s %d", " ", "end\\", 'end"', " sep", "<i>x</i>", "a&b", "line1\nline2\n", "\\n", "1.0", "-"]
@@ -80,7 +83,7 @@ DEFAULT_PROFILE = dict(
     ns_uris=NS_URIS, prefixes=PREFIXES, strings=STR_COMMON + STR_NON_XML,
     name_forms=("qn", "str", "local", "uri"), p_anon=0.4, p_missing_endpoint=0.1, p_repeat_id=0.25,
     p_extra=0.6, p_interleave_ns=0.15, p_attrs_op=0.12, label_plain=False, qname_literal=True,
-    custom_datatypes=True, p_record_ref=0.2, p_conv=0.15, p_multi_value=0.25, p_prov_class_type=0.15,
+    custom_datatypes=True, p_record_ref=0.2, p_conv=0.15, p_multi_value=0.25, p_prov_class_type=0.3,
     mandatory_args=False, bare_relations=False, uris=("http://x.org/y", "urn:a:b", "http://x.org/a b", "mailto:a@b",
                                                        "http://ex.org/e1", "x", "http://x.org/é"),
     tz_minutes=(None, None, 0, 60, -300, 330, 765, -720, 840), empty_prefix_qn=0.08,
@@ -245,7 +248,7 @@ class Gen:
         self.targets.append(t)
         return op
 
-    def rand_extras(self, t, n=None):
+    def rand_extras(self, t, n=None, kind=None):
         r = self.r
         extras = []
         for _ in range(n if n is not None else r.randint(1, 4)):
@@ -257,7 +260,9 @@ class Gen:
                 an = self.rand_name(t, forms=tuple(f for f in self.p["name_forms"] if f != "uri") or ("qn",),
                                     locals_=self.p["attr_locals"])
             if an.get("s") == "prov:type" and r.random() < self.p["p_prov_class_type"]:
-                val = {"k": "qn", "name": {"form": "prov", "local": r.choice(PROV_CLASS_TYPES)}}
+                matching = SUBTYPES_OF.get(kind)
+                local = r.choice(matching) if matching and r.random() < 0.7 else r.choice(PROV_CLASS_TYPES)
+                val = {"k": "qn", "name": {"form": "prov", "local": local}}
             elif self.p["label_plain"] and an.get("s") == "prov:label":
                 val = self.rand_value(t, kinds=("str", "lang"))
             else:
@@ -308,7 +313,7 @@ class Gen:
                     args[f] = self.pick_endpoint(t)
         extras = []
         if r.random() < self.p["p_extra"] and not bare:
-            extras = self.rand_extras(t)
+            extras = self.rand_extras(t, kind=kind)
         via = r.choice(["new_record", "factory"])
         label = "R%d" % self.nrec
         self.nrec += 1
